@@ -22,6 +22,6 @@ for mp in sorted(glob.glob(os.path.join(V, "seeded", "*", "meta.json"))):
             rows.append("%s %s %s" % (sid, parts[0], "CAUGHT" if ok else line[:160]))
             if not ok: bad.append((sid, parts[0], line[:200]))
     print(rows[-1] if rows else sid, flush=True)
-out = ["# regression of the seeded changes against the current checks (quick tier), %d s" % (time.time() - t0)] + rows + ["", "NOT CAUGHT ANY MORE: %d" % len(bad)] + ["%s %s %s" % b for b in bad]
+out = ["# regression of the seeded changes against the current checks (quick tier), %d s%s" % (time.time() - t0, (" -- subset: seeds starting with " + " ".join(want)) if want else "")] + rows + ["", "NOT CAUGHT ANY MORE: %d" % len(bad)] + ["%s %s %s" % b for b in bad]
 open(os.path.join(V, "seeded", "REGRESSION.txt"), "w").write("\n".join(out) + "\n")
 print("\n".join(out[-(len(bad) + 2):]))
